@@ -338,6 +338,36 @@ def gen_c10(rng: random.Random, sid: str, thorough: bool = False) -> dict:
                             'rand': rng.choice([None, None, 'lo', 'hi'])})
 
 
+def gen_c10_partial(rng: random.Random, sid: str, thorough: bool = False) -> dict:
+    """A browser of two types whose records come up for refresh in the same pass, while the question for one of the types was heard
+    from the link (this instance answers for that type) less than a second earlier with a known-answer list that covers the
+    cache: that question is suppressed -- the other one is still due."""
+    n1, n2 = 6, 2
+    delay = rng.choice([1000, 10000])
+    ttl = rng.choice([4500, 1200, 9000])
+    learn = rng.choice([20000, 30001])
+    a, b = rng.randint(2, n1), n1 + rng.randint(1, n2)
+    steps: List[dict] = [{'op': 'at', 't': 0}, {'op': 'reg', 'id': 1}, {'op': 'at', 't': 1000},
+                         {'op': 'bstart', 'types': [T1, T2], 'delay': delay, 'forced': rng.choice(['none', 'QM'])},
+                         {'op': 'at', 't': learn},
+                         {'op': 'recv', 'items': [{'id': a, 'ttl': ttl, 'sp': 0}, {'id': b, 'ttl': ttl, 'sp': 0}]}]
+    heard_type = rng.choice([T1, T1, T2])
+    for pct in (75, 85, 95):
+        due = learn + ttl * 10 * pct
+        if pct == 75 or rng.random() < 0.5:
+            gap = rng.choice([1, 2, 500, 998])
+            # (the list heard holds nothing this host does not know itself -- at 75 % and later the learned records are stale and not in
+            # its own list any more: an empty list, or the pointer of its own service)
+            ka = [(1, 4500)] if heard_type == T1 and rng.random() < 0.5 else []
+            steps += [{'op': 'at', 't': due - gap},
+                      {'op': 'query', 'types': [heard_type], 'qu': False, 'qid': rng.randint(0, 65535), 'ka': ka, 'sp': 0, 'qsp': rng.randint(0, 2),
+                       'src': '10.0.0.31'}]
+    steps.append({'op': 'at', 't': learn + ttl * 1000 + 30000})
+    if heard_type == T2:
+        steps.insert(2, {'op': 'reg', 'id': n1 + 1})
+    return with_group(rng, {'id': sid, 'n1': n1, 'n2': n2, 'n3': 0, 'seed': rng.randint(0, 10 ** 9), 'steps': steps, 'rand': rng.choice([None, 'lo', 'hi'])})
+
+
 def gen_c13_bigcache(rng: random.Random, sid: str, thorough: bool = False) -> dict:
     """Many pointer records with ages below / at / above half TTL when the start-up queries go out (forces TC trains)."""
     n1 = rng.choice([8, 40, 120, 300] if not thorough else [8, 60, 200, 400])
